@@ -337,6 +337,21 @@ pub fn hostile_dp(rep: &mut Report, seed: u64, idx: u64, verbose: bool) {
         let sc: Vec<Fault> = (0..n_txn).map(|_| if rng.below(100) < pct { rng.pick(&HOSTILE).clone() } else { Fault::None }).collect();
         *s.script.borrow_mut() = sc;
     }
+    // extended diagnostics of every shape (they are walked by the master's debug log line)
+    for s in &run.slaves {
+        let mut c = s.core.borrow_mut();
+        c.ext_diag_flag = rng.chance(3, 4);
+        let n = rng.usize(5);
+        let mut e = Vec::new();
+        for _ in 0..n {
+            let r = rng.u8();
+            let h = *rng.pick(&[0x00u8, 0x40, 0x01, 0x41, 0x04, 0x44, 0x3f, 0x7f, 0x80, 0x88, 0xc0, r]);
+            e.push(h);
+            let k = rng.usize(5);
+            e.extend(rng.bytes(k));
+        }
+        c.ext_diag = e;
+    }
     let scfg = ScriptCfg {
         baud: cfg.baud,
         slot_bits: cfg.slot_bits,
